@@ -18,11 +18,12 @@ pub mod c10;
 pub mod c11;
 pub mod c12;
 pub mod c13;
+pub mod c14;
 pub mod c15;
 pub mod c16;
 pub mod c17;
 
-pub const ALL: &[&str] = &["C01", "C02", "C03", "C04", "C05", "C06", "C07", "C08", "C09", "C10", "C11", "C12", "C13", "C15", "C16", "C17"];
+pub const ALL: &[&str] = &["C01", "C02", "C03", "C04", "C05", "C06", "C07", "C08", "C09", "C10", "C11", "C12", "C13", "C14", "C15", "C16", "C17"];
 
 pub fn run(ctx: &Ctx) -> i32 {
     match ctx.prop.as_str() {
@@ -39,6 +40,7 @@ pub fn run(ctx: &Ctx) -> i32 {
         "C11" => c11::run(ctx),
         "C12" => c12::run(ctx),
         "C13" => c13::run(ctx),
+        "C14" => c14::run(ctx),
         "C15" => c15::run(ctx),
         "C16" => c16::run(ctx),
         "C17" => c17::run(ctx),
@@ -64,6 +66,7 @@ pub fn replay_case(prop: &str, suite: &str, case: &Value) -> Option<Verdict> {
         "C11" => c11::replay(suite, case),
         "C12" => c12::replay(suite, case),
         "C13" => c13::replay(suite, case),
+        "C14" => c14::replay(suite, case),
         "C15" => c15::replay(suite, case),
         "C16" => c16::replay(suite, case),
         "C17" => c17::replay(suite, case),
